@@ -18,9 +18,18 @@ def variant_index(F):
 
 
 def to_num_table(F):
-    """Register::to_num as {variant: n} (extracted from the match)."""
+    """Register::to_num as {variant: n}: read off the match, or - when the function is `self as <int>` - off the
+    discriminants of the enum (the compiler's own numbering, explicit values included)."""
     from .p_c08 import self_match, arm_table
     p = F.method(REG, "to_num")
+    body = peel(F.fn(p)["hir"]["value"])
+    while body.get("k") == "Block" and not body.get("stmts") and body.get("expr") is not None:
+        body = peel(body["expr"])
+    if body.get("k") == "Cast" and peel(body["e"]).get("k") == "Path" and peel(body["e"]).get("res") == "self":
+        vs = F.adt(REG)["variants"]
+        if any("discr" not in v for v in vs):
+            raise Anchor("the fact base carries no discriminants for Register")
+        return {v["name"]: v["discr"] for v in vs}, body
     m = self_match(F, p, REG)
     out = {}
     for v, arm in arm_table(m):
